@@ -369,14 +369,42 @@ def parse_assumptions(out):
     return blocks
 
 
+def strip_coq_comments(text):
+    """remove (possibly nested, multi-line) Coq comments, keeping line structure"""
+    out = []; depth = 0; i = 0; n = len(text); instr = False
+    while i < n:
+        c = text[i]
+        if depth == 0 and c == '"':
+            instr = not instr; out.append(c); i += 1; continue
+        if not instr and text.startswith('(*', i):
+            depth += 1; i += 2; continue
+        if not instr and depth > 0 and text.startswith('*)', i):
+            depth -= 1; i += 2; continue
+        if depth > 0:
+            out.append('\n' if c == '\n' else ' ')
+        else:
+            out.append(c)
+        i += 1
+    return ''.join(out)
+
+
 def grep_forbidden():
-    pat = re.compile(r'\b(Admitted|admit|Axiom|Axioms|Parameter|Parameters|Conjecture|bypass_check|Admit Obligations)\b|Unset Guard|Unset Positivity|Unset Universe|type-in-type')
+    """no axiom-like declaration, no admitted proof, no switched-off kernel check, and no Variable/Hypothesis/Context
+    outside a Section (which would declare an axiom), anywhere in the development"""
+    pat = re.compile(r'\b(Admitted|admit|Axiom|Axioms|Parameter|Parameters|Conjecture|Conjectures|bypass_check|Admit Obligations)\b|Unset Guard|Unset Positivity|Unset Universe|type-in-type|impredicative-set')
     hits = []
     for f in glob.glob(os.path.join(COQ, '**', '*.v'), recursive=True):
-        for i, l in enumerate(open(f), 1):
-            l2 = re.sub(r'\(\*.*?\*\)', '', l)
-            if pat.search(l2):
+        text = strip_coq_comments(open(f).read())
+        depth = 0
+        for i, l in enumerate(text.split('\n'), 1):
+            if pat.search(l):
                 hits.append('%s:%d: %s' % (f, i, l.strip()))
+            if re.match(r'\s*(Section|Module)\s', l) and not re.match(r'\s*Module\s+\S+\s*:=', l):
+                depth += 1
+            elif re.match(r'\s*End\s', l):
+                depth -= 1
+            elif depth <= 0 and re.match(r'\s*(Variable|Variables|Hypothesis|Hypotheses)\b', l):
+                hits.append('%s:%d: %s  (outside a Section: declares an axiom)' % (f, i, l.strip()))
     return hits
 
 
